@@ -57,6 +57,9 @@ type Strat struct {
 	Doc  string
 	// LateKey: known-finding key of a strategy that emits n+1 actions, every one a day late.
 	LateKey string
+	// TerminationOnly: an out-of-domain configuration that only the termination property (C03)
+	// looks at (its alignment is not claimed, so no look-ahead / reuse / unit comparisons).
+	TerminationOnly bool
 	// ThresholdPair: F[0], F[1] are a buy/sell threshold pair ordered by Fix (GenConfigLoose).
 	ThresholdPair bool
 	// DefectKey / DefectRule: known contradiction of the documented rule (C06).
@@ -92,6 +95,9 @@ func (st Strat) GenConfig(t *rapid.T) reg.Config {
 	if st.Fix != nil {
 		st.Fix(&c)
 	}
+	if st.ThresholdPair && len(c.F) >= 2 && !def && rapid.IntRange(0, 11).Draw(t, "both_thresholds_zero") == 5 {
+		c.F[0], c.F[1] = 0, 0 // the zero value of both fields: a band of width 0 at the bottom of the scale
+	}
 	return c
 }
 
@@ -106,6 +112,9 @@ func (st Strat) GenConfigLoose(t *rapid.T) reg.Config {
 		c.F[0], c.F[1] = c.F[1], c.F[0]
 		if rapid.Bool().Draw(t, "thresholds_equal") {
 			c.F[1] = c.F[0]
+		}
+		if rapid.IntRange(0, 3).Draw(t, "thresholds_zero") == 2 {
+			c.F[0], c.F[1] = 0, 0 // what a struct literal leaves
 		}
 	}
 	return c
